@@ -111,6 +111,10 @@ def replay(prop, path):
       except Exception as ex:  # noqa
         bad.append("Error:%s:%s" % (e[0], type(ex).__name__))
     return _verdict(prop, path, bad)
+  if prop == "C15" and case.get("instances"):
+    from harness import deferinst
+    ops = deferinst.run_one(None, 0, script=[o[:2] for o in case["ops"]])
+    return _verdict(prop, path, deferinst.judge(ops), "ops=%s" % ops[-2:])
   if prop == "C16" and "cap" in case:
     import queue
     import miros.hsm as mh
